@@ -2114,8 +2114,9 @@ class Tensor:
         return self._op(MatMul, other, self)
 
     def __pow__(self, other: ArrayLike):
-        if (isinstance(other, Number) and not isinstance(other, bool)) or (
-            isinstance(other, np.ndarray) and other.ndim == 0
+        if self.dtype != np.bool_ and (
+            (isinstance(other, Number) and not isinstance(other, bool))
+            or (isinstance(other, np.ndarray) and other.ndim == 0)
         ):
             if other == 1:
                 return self._op(Positive, self)
@@ -2125,8 +2126,9 @@ class Tensor:
         return self._op(Power, self, other)
 
     def __ipow__(self, other: ArrayLike) -> "Tensor":
-        if (isinstance(other, Number) and not isinstance(other, bool)) or (
-            isinstance(other, np.ndarray) and other.ndim == 0
+        if self.dtype != np.bool_ and (
+            (isinstance(other, Number) and not isinstance(other, bool))
+            or (isinstance(other, np.ndarray) and other.ndim == 0)
         ):
             if other == 1:
                 self._in_place_op(Positive, self)
